@@ -53,12 +53,12 @@ type polyObs struct {
 	RG    int        `json:"rg"` // nagon: r
 	Exp   []polyItem `json:"exp"`
 	Panic bool       `json:"panic"`
-	N     int        `json:"n"`    // number of real output vertices
-	NaN   int        `json:"nan"`  // vertices with a NaN / Inf coordinate
-	D     []int64    `json:"d"`    // per output vertex: deviation from its item, 1e-12 units (saturating)
-	Frac  []int64    `json:"frac"` // per output vertex: position along its fillet / arc * 1e6 (-1: not applicable)
-	Ctr   int64      `json:"ctr"`  // max | dist(analytic centre, edge line) - r | over the measured fillets (1e-12)
-	Arcs  [][4]int   `json:"arcs"` // per arc: program vertex, sign of r, side of the points, side of the centre
+	N     int        `json:"n"`     // number of real output vertices
+	NaN   int        `json:"nan"`   // vertices with a NaN / Inf coordinate
+	D     []int64    `json:"d"`     // per output vertex: deviation from its item, 1e-12 units (saturating)
+	Frac  []int64    `json:"frac"`  // per output vertex: position along its fillet / arc * 1e6 (-1: not applicable)
+	Ctr   int64      `json:"ctr"`   // max | dist(analytic centre, edge line) - r | over the measured fillets (1e-12)
+	Arcs  [][4]int   `json:"arcs"`  // per arc: program vertex, sign of r, side of the points, side of the centre
 	First [][2]int64 `json:"first"` // first real vertices in 1e-6 units (for the report only)
 }
 
